@@ -32,3 +32,43 @@ func (w *Workspace) VerifxGraphs() string {
 	sort.Strings(lines)
 	return strings.Join(lines, "\n")
 }
+
+// VerifxContent renders, per file of the workspace's resolved tree, which
+// version of the file the workspace holds (transaction descriptions and
+// account directives identify a version in the explorers' worlds).
+func (w *Workspace) VerifxContent() string {
+	w.mu.RLock()
+	defer w.mu.RUnlock()
+	if w.resolved == nil {
+		return "no resolved tree"
+	}
+	var lines []string
+	add := func(path string, txs []string, accts []string) {
+		lines = append(lines, fmt.Sprintf("ws %s tx=%v accounts=%v", path, txs, accts))
+	}
+	if j := w.resolved.Primary; j != nil {
+		var txs, accts []string
+		for _, t := range j.Transactions {
+			txs = append(txs, t.Description)
+		}
+		for _, d := range j.Directives {
+			accts = append(accts, fmt.Sprintf("%T", d))
+		}
+		add(w.resolved.PrimaryPath, txs, accts)
+	}
+	for path, j := range w.resolved.Files {
+		if j == nil {
+			continue
+		}
+		var txs, accts []string
+		for _, t := range j.Transactions {
+			txs = append(txs, t.Description)
+		}
+		for _, d := range j.Directives {
+			accts = append(accts, fmt.Sprintf("%T", d))
+		}
+		add(path, txs, accts)
+	}
+	sort.Strings(lines)
+	return strings.Join(lines, "\n")
+}
